@@ -15,7 +15,7 @@ use explore::{Ctx, Fnv};
 use std::time::Instant;
 
 const P: &str = "C17";
-pub const N_VARIANTS: usize = 6;
+pub const N_VARIANTS: usize = 7;
 
 fn base_file() -> Vec<u8> {
     let mut a = cloud(cat::xyz(cat::F32), 200, 1); // spans three pages
@@ -40,7 +40,7 @@ fn reseal_all(b: &mut [u8]) {
 
 /// 0 intact; 1 payload bit flipped inside cloud 0; 2 inside an image blob; 3 cloud 0 section id
 /// destroyed (page resealed); 4 second packet header of cloud 0 destroyed (resealed); 5 checksum
-/// byte of a cloud page flipped
+/// byte of a cloud page flipped; 6 illegal invalid-state value inside the second cloud (resealed)
 pub fn variant(k: usize) -> Vec<u8> {
     let mut b = base_file();
     let rep = e57spec::decode::validate(&b, &Default::default());
@@ -66,9 +66,20 @@ pub fn variant(k: usize) -> Vec<u8> {
             b[ph] = 9;
             reseal_all(&mut b);
         }
-        _ => {
+        5 => {
             let pg = (page::log_to_phys(cv.log_start + 2300) / 1024) as usize;
             b[pg * 1024 + 1022] ^= 0x01;
+        }
+        _ => {
+            // intact pages, but point 5 of the second cloud stores the illegal invalid-state value 3:
+            // the simple iterator fails in the middle of a batch, the raw iterator does not fail
+            let cv2 = rep.sections.iter().filter(|s| s.kind == "cv").nth(1).expect("second cloud section");
+            let pk = cv2.packets.iter().find(|p| p.kind == 1).expect("data packet");
+            let n = pk.stream_sizes.len();
+            let start = pk.log_off as usize + 6 + 2 * n + pk.stream_sizes[..3].iter().sum::<usize>();
+            let ph = page::log_to_phys(start as u64 + 1) as usize; // bits 10,11 of the 2-bit state stream
+            b[ph] |= 0x0C;
+            reseal_all(&mut b);
         }
     }
     b
